@@ -11,14 +11,27 @@ What runs:
   4. property-direct oracle on the implementation: both loader builds, story mutants and save mutants,
      each case isolated (panic hook + catch_unwind, crashing shards re-run case by case);
      after every load attempt of a save: reset_state + continue_maximally must equal a fresh story.
+  5. value-level save mutants (runs concurrently with 3./4.): saves taken line by line along explored choice
+     paths of LIST-/thread-/tunnel-/function-using corpus stories and of generated list programs
+     (gen_list_story: list globals, list temps in functions / tunnels / threads, multi-line functions called
+     in the middle of an expression so that lists sit on the evaluation stack while saving), in the three
+     shapes the loader accepts (flows, old format, two flows); mutate_json.save_values then puts values the
+     engine would never have written into every slot of the save (evalStack, outputStream, variablesState,
+     temps of every call-stack element incl. choice threads: lists of unknown / missing / mixed origin,
+     origin-less or unknown items, dangling divert targets and variable pointers, control objects; paths
+     that do not exist, indices out of range, counters negative / huge, unknown flow / thread names).
+     Property-direct: load_state of BOTH loader builds must answer Ok or Err, then reset + replay == fresh.
+     T-corr: a stratified sample of the mutants is loaded (LOADTEXT, with and without NEW in between) by the
+     Coq save-loader model (Engine/Save.v via tools/engine_save.py, sites as regenerated in Gen/SaveGen.v)
+     and by inkdrive; the outcomes (ok / err(class) / panic) must agree.
 Violation keys (stable):
   loader-panic-empty-array / -unwrap-type / -int-range / -named-content / -empty-string   (std loader, D14)
   stream-loader-panic-<class>, stream-loader-todo, deep-nesting-stack-overflow, loader-crash
   story-new-engine-panic:<file>:<fn> (panic outside the loaders while Story::new runs `global decl`)
   save-load-panic-<file>:<fn>, save-load-crash, failed-load-reset-differs, failed-load-reset-fails
-  loader-model-mismatch (no_input)
+  loader-model-mismatch (no_input), save-loader-model-mismatch (no_input)
 """
-import collections, json, os, re, time
+import collections, json, os, random, re, threading, time
 import vlib, gen_tables
 import mutate_json as mj
 from props import common, c19_tree
@@ -32,8 +45,10 @@ ASSUMPTIONS = [
     "harness/src/bin/loadfuzz.rs::coq_json); text serde rejects must be rejected with BadJson by the loader",
     "stack exhaustion is not expressible in the model: nesting depth is bounded by serde_json's recursion "
     "limit (128) for the std loader; the streaming loader has no bound (exploration only)",
-    "save-state loading (StoryState::load_json, Flow, CallStack, VariablesState) is not modelled yet: "
-    "implementation-side exploration only (slot in Props/C15.v)",
+    "save-state loading (StoryState::load_json, Flow, CallStack, VariablesState): no totality theorem in "
+    "Props/C15.v yet (slot); the executable model Engine/Save.v (per-site table Gen/SaveGen.v, regenerated) is "
+    "compared with load_state on a stratified sample of the value-level save mutants (outcome only), all "
+    "mutants run on both loader builds of the implementation",
     "Story::new also runs the `global decl` container through the engine; panics there are reported under "
     "story-new-engine-panic and are outside the loader model",
 ]
@@ -484,6 +499,284 @@ def run_save_side(ctx, cases, exe, build):
     return viol, stats
 
 
+# ------------------------------------------------------------------ value-level save mutants
+FEATURED_DIRS = ("lists", "threads", "tunnels", "function", "runtime", "variable")
+LIST_POOL = [("colours", ["red", "green", "blue", "pink"]), ("mood", ["calm", "angry", "sad"]),
+             ("kit", ["rope", "lamp", "key", "map"]), ("doors", ["north", "south", "east"])]
+
+
+def gen_list_story(rng):
+    """A small Ink program whose saves carry list values in every place a save can carry a value: list
+    globals, list temps of the main thread / a function / a tunnel / a forked thread with its own choices,
+    and a multi-line function called in the middle of an expression (lists on the evaluation stack while
+    the story stops between the function's lines)."""
+    decl, lists = [], []
+    for name, items in rng.sample(LIST_POOL, rng.randrange(1, 4)):
+        items = items[:rng.randrange(2, len(items) + 1)]
+        decl.append("LIST %s = %s" % (name, ", ".join("(%s)" % i if rng.random() < 0.4 else i for i in items)))
+        lists.append((name, items))
+
+    def lit():
+        _, items = rng.choice(lists)
+        return "(" + ", ".join(rng.sample(items, rng.randrange(0, min(3, len(items)) + 1))) + ")"
+
+    def item():
+        return rng.choice(rng.choice(lists)[1])
+
+    def lexpr(vars_):
+        v = rng.choice(vars_)
+        k = rng.randrange(6)
+        return ["%s + %s" % (v, item()), "%s - %s" % (v, item()), "LIST_ALL(%s)" % rng.choice(lists)[0],
+                "LIST_INVERT(%s)" % v, "%s ^ %s" % (v, lit()), v][k]
+
+    out = decl + ["VAR have = %s" % lit(), "VAR seen = ()", "VAR n = %d" % rng.randrange(0, 5)]
+    if rng.random() < 0.5:
+        out.append("VAR st = %s" % item())
+    out += ["-> start", "=== function pick(x)", "~ temp t = x + %s" % item()]
+    for _ in range(rng.randrange(1, 4)):
+        out.append(rng.choice(["picking {x}", "have {t}", "looking around", "count {LIST_COUNT(t)}"]))
+    out.append("~ return %s" % rng.choice(["t", "x", "LIST_INVERT(t)", "()"]))
+    out += ["=== tun(y)", "~ temp u = %s" % lexpr(["y", "have"]), "In the tunnel {u}."]
+    if rng.random() < 0.5:
+        out += ["~ seen += %s" % item(), "Still there {seen}."]
+    out += ["->->", "=== side", "~ temp s = %s" % lexpr(["have", "seen"]), "Side text {s}.",
+            "* [side choice] Chosen side {s}. -> fin"]
+    if rng.random() < 0.5:
+        out.append("+ {have ? %s} [other side] Other. -> fin" % item())
+    out += ["=== start", "Hello {have}."]
+    body = ["~ temp r = %s + pick(%s)" % (lexpr(["have", "seen"]), lit()),
+            "Now {r} and {%s}." % lexpr(["have", "r"]),
+            "Sum {have + pick(%s)} done." % lit(),
+            "-> tun(%s) ->" % lexpr(["have"]),
+            "~ have = %s" % lexpr(["have", "seen"]),
+            "~ seen += %s" % item(),
+            "{LIST_COUNT(have) > n: many|few} things."]
+    rng.shuffle(body)
+    body = body[:rng.randrange(3, len(body) + 1)]
+    if not any("temp r" in b for b in body):
+        body = [b for b in body if "{r" not in b]
+    else:
+        body.sort(key=lambda b: 0 if "temp r" in b else 2 if "{r" in b else 1)
+    out += body
+    if rng.random() < 0.7:
+        out.append("<- side")
+    out += ["* [one] -> one", "* {not (have ? %s)} [two] -> two" % item(), "+ [again] -> two",
+            "=== one", "~ temp q = %s" % lexpr(["have", "seen"]), "~ have += %s" % item(), "One {have} {q}.",
+            "<- side", "* [back {q}] -> fin",
+            "=== two", "Two {pick(%s)}." % lit(), "-> tun(have) ->", "-> fin",
+            "=== fin", "The end {have} {seen}.", "-> END"]
+    return "\n".join(out) + "\n"
+
+
+def value_stories(ctx, rng, ink_exe, stats):
+    """[(src, story text)]: list- / thread- / tunnel- / function-using corpus stories and generated ones"""
+    feat = [f for f in common.corpus_json()
+            if os.path.basename(os.path.dirname(f)) in FEATURED_DIRS and os.path.getsize(f) < 6000]
+    must = [f for f in feat if os.path.basename(os.path.dirname(f)) == "threads" or "thread" in os.path.basename(f)]
+    rest = [f for f in feat if f not in must]
+    rng.shuffle(rest)
+    lists_first = sorted(rest, key=lambda f: 0 if os.path.basename(os.path.dirname(f)) == "lists" else 1)
+    chosen = must + (lists_first[:5] + [f for f in rest if f not in lists_first[:5]][:2] if ctx.quick() else rest)
+    out = []
+    for f in chosen:
+        try:
+            txt = read_story(f)
+            json.loads(txt)
+            out.append((os.path.relpath(f, common.INKFILES), txt))
+        except ValueError:
+            continue
+    ngen = 6 if ctx.quick() else 60
+    srcs = [gen_list_story(rng) for _ in range(ngen)]
+    res = vlib.run_inkdrive([{"id": "g%d" % i, "ink": src, "want_json": True, "script": []}
+                             for i, src in enumerate(srcs)], ink_exe, timeout=300)
+    for i, (src, r) in enumerate(zip(srcs, res)):
+        if r.get("compile") == "ok" and r.get("load") == "ok" and r.get("json"):
+            out.append(("generated-list-story-%d" % i, r["json"]))
+            stats["generated_list_stories"] += 1
+        else:
+            stats["generated_list_stories_rejected:" + str(r.get("compile"))] += 1
+    return out
+
+
+def make_value_saves(ctx, rng, stories, exe, stats):
+    """saves taken line by line along random choice paths; a few per story, preferring the ones that carry
+    the most (values on the evaluation stack, choice threads, temps, changed globals)"""
+    npaths, keep = (3, 4) if ctx.quick() else (10, 16)
+    cases = []
+    for si, (src, txt) in enumerate(stories):
+        for k in range(npaths):
+            path = [rng.randrange(4) for _ in range(rng.randrange(0, 5))] if k else []
+            cases.append({"id": "w%d_%d" % (si, k), "mode": "mksave", "story": txt, "path": path, "lines": 8, "si": si})
+    res = vlib.run_inkdrive(cases, exe, timeout=300)
+    per = collections.defaultdict(dict)
+    for c, r in zip(cases, res):
+        for sv in r.get("saves", []) or []:
+            if len(sv) < 6000:
+                per[c["si"]].setdefault(sv, None)
+    out = []
+    for si, (src, txt) in enumerate(stories):
+        scored = []
+        for sv in per.get(si, {}):
+            try:
+                d = json.loads(sv)
+            except ValueError:
+                continue
+            score = rng.random() * 3
+            if d.get("evalStack"):
+                score += 4
+                stats["saves_with_values_on_eval_stack"] += 1
+            if '"choiceThreads"' in sv:
+                score += 2
+            if '"temp"' in sv:
+                score += 1
+            if d.get("variablesState"):
+                score += 1
+            if '"list"' in sv:
+                score += 1
+            scored.append((score, sv, d))
+        scored.sort(key=lambda x: -x[0])
+        for _, sv, d in scored[:keep]:
+            out.append((src, txt, sv, d))
+    stats["value_saves"] = len(out)
+    return out
+
+
+def value_cases(ctx, rng, vsaves):
+    cases = []
+    nval, nvar = (30, 8) if ctx.quick() else (120, 30)
+
+    def add(kind, src, story, save):
+        cases.append({"id": "x%d" % len(cases), "mode": "save", "story": story, "save": save, "kind": kind, "src": src})
+
+    for src, story, sv, doc in vsaves:
+        try:
+            sdoc = json.loads(story)
+        except ValueError:
+            continue
+        add("valid", src, story, sv)
+        for kind, t in mj.save_values(doc, sdoc, rng, nval):
+            add(kind, src, story, t)
+        for vk, vdoc in mj.save_variants(doc):
+            add("variant:" + vk, src, story, mj.dumps(vdoc))
+            for kind, t in mj.save_values(vdoc, sdoc, rng, nvar):
+                add(vk + "+" + kind, src, story, t)
+    return cases
+
+
+def _is_value_list_class(kind):
+    return ":list-" in kind and any(x in kind for x in ("evalStack", "outputStream", "temp", "variablesState"))
+
+
+def model_sample(ctx, rng, vcases, budget):
+    """stratified sample for the model: round robin over the mutation kinds (half of the byte budget for
+    alien LIST values in value slots, half for everything else), shortest documents first within a kind;
+    grouped per story into inkdrive scripts [LOADTEXT m1, (NEW,) LOADTEXT m2, ...]"""
+    groups = {True: collections.defaultdict(list), False: collections.defaultdict(list)}
+    for c in vcases:
+        k = re.sub(r":(append|insert|replace|set|add):", ":", c["kind"])
+        groups[_is_value_list_class(k)][k].append(c)
+    picked = []
+    for flag in (True, False):
+        g = groups[flag]
+        for k in g:
+            rng.shuffle(g[k])
+            g[k].sort(key=lambda c: len(c["save"]) // 400)
+        keys = sorted(g)
+        rng.shuffle(keys)
+        used, rnd = 0, 0
+        while used < budget // 2 and any(len(g[k]) > rnd for k in keys):
+            for k in keys:
+                if len(g[k]) > rnd and used < budget // 2:
+                    picked.append(g[k][rnd])
+                    used += len(g[k][rnd]["save"])
+            rnd += 1
+    bystory = collections.OrderedDict()
+    for c in picked:
+        bystory.setdefault(c["story"], []).append(c)
+    mcases = []
+    for story, cs in bystory.items():
+        rng.shuffle(cs)
+        for i in range(0, len(cs), 10):
+            script, ops = [], []
+            for c in cs[i:i + 10]:
+                if script and rng.random() < 0.5:
+                    script.append(["NEW"])
+                    ops.append(None)
+                script.append(["LOADTEXT", c["save"]])
+                ops.append(c)
+            mcases.append(({"id": "sm%d" % len(mcases), "story": story, "script": script}, ops))
+    return mcases
+
+
+def outcome_of(line):
+    return (line or "").split(" | ", 1)[0].strip()
+
+
+def run_save_model(ctx, mcases, ink_exe, stats):
+    """Coq save-loader model vs implementation on the LOADTEXT scripts: outcome per op must agree."""
+    import engine, engine_save
+    mism, err = [], None
+    if not mcases:
+        return mism, err
+    cases = [c for c, _ in mcases]
+    try:
+        sw = engine.current_switches()
+        ssw, _ = engine_save.current_save_switches()
+        res = engine_save.compare(cases, exe=ink_exe, sw=sw, ssw=ssw, shard=1)
+    except Exception as e:                       # tooling failure: reported as a note, never as a verdict
+        return mism, "%s: %s" % (type(e).__name__, str(e)[-400:])
+    for (c, ops), r in zip(mcases, res):
+        st = r.get("status")
+        stats["save_model_case:" + str(st)] += 1
+        if st == "model-error":
+            err = (r.get("error") or "")[-400:]
+            continue
+        if st not in ("agree", "mismatch"):
+            continue
+        il, ml = r.get("impl_lines") or [], r.get("model_lines") or []
+        for k, op in enumerate(ops):
+            if op is None:
+                continue
+            a = outcome_of(il[k + 1]) if k + 1 < len(il) else "<missing>"
+            b = outcome_of(ml[k + 1]) if k + 1 < len(ml) else "<missing>"
+            stats["save_model_loads"] += 1
+            stats["save_model:" + b] += 1
+            if a == "poisoned":                  # a panic earlier in the same script (already counted there)
+                continue
+            if a != b:
+                mism.append(dict(mode="savemodel", kind=op["kind"], src=op["src"], story=c["story"],
+                                 script=c["script"][:c["script"].index(["LOADTEXT", op["save"]]) + 1],
+                                 save=op["save"], impl=a, model=b))
+            elif k + 1 < len(il) and k + 1 < len(ml) and not engine.lines_agree(
+                    engine.canon_line(il[k + 1]), engine.canon_line(ml[k + 1])):
+                stats["save_model_same_outcome_other_summary"] += 1
+    return mism, err
+
+
+def value_side(ctx, rng, std_exe, stream_exe, box):
+    """everything of step 5; results into `box` (runs in its own thread)"""
+    try:
+        stats = collections.Counter()
+        t0 = time.time()
+        ink_exe = os.path.join(os.path.dirname(std_exe), "inkdrive")
+        stories = value_stories(ctx, rng, ink_exe, stats)
+        vsaves = make_value_saves(ctx, rng, stories, std_exe, stats)
+        vcases = value_cases(ctx, rng, vsaves)
+        mcases = model_sample(ctx, rng, vcases, 90000 if ctx.quick() else 1500000)
+        box.update(stories=len(stories), cases=vcases, model_cases=len(mcases))
+        viol = collections.OrderedDict()
+        for exe, build in ((std_exe, "std"), (stream_exe, "stream")):
+            v, s_ = run_save_side(ctx, vcases, exe, build)
+            for k, x in v.items():
+                viol.setdefault(k, x)
+            stats.update({k.replace("save[", "value_save["): n for k, n in s_.items()})
+        box["wall_direct"] = round(time.time() - t0, 1)
+        mism, err = run_save_model(ctx, mcases, ink_exe, stats)
+        box.update(viol=viol, stats=stats, mismatches=mism, model_err=err, wall=round(time.time() - t0, 1))
+    except BaseException as e:                   # re-raised by run() in the main thread
+        box["exception"] = e
+
+
 def run(ctx):
     t0 = time.time()
     walls = {}
@@ -493,15 +786,22 @@ def run(ctx):
         walls[name] = round(time.time() - t0, 1)
         t0 = time.time()
 
-    facts = gen_tables.run(["path", "load", "native", "cmd"])
-    ctx.coverage["generated_tables"] = {k: v for k, v in facts.items() if k.startswith("load.") or k.startswith("path.")}
+    facts = gen_tables.run(["path", "load", "native", "cmd", "engine", "save"])
+    ctx.coverage["generated_tables"] = {k: v for k, v in facts.items()
+                                        if k.startswith("load.") or k.startswith("path.") or k.startswith("save.")}
     pr = ctx.proof("theories/Props/C15.v")
+    okm, logm = ctx.build(["theories/Engine/RunSave.vo"])
     lap("proof")
 
     std_exe = vlib.build_harness(binname="loadfuzz")
     stream_exe = vlib.build_harness(features=("stream",), binname="loadfuzz")
 
     lap("harness_build")
+    # step 5 runs beside the story side (its own random stream, derived from the run's seed)
+    vbox = {}
+    vthread = threading.Thread(target=value_side, daemon=True,
+                               args=(ctx, random.Random("c15-values-%s" % ctx.seed), std_exe, stream_exe, vbox))
+    vthread.start()
     files = base_stories(ctx)
     cases = story_cases(ctx, files)
     viol, stats, mismatches, model_err, nmodel = run_story_side(ctx, cases, std_exe, stream_exe, facts)
@@ -520,17 +820,43 @@ def run(ctx):
         stats.update(s3)
 
     lap("save_side")
+    vthread.join()
+    if "exception" in vbox:
+        raise vbox["exception"]
+    for k, v in vbox.get("viol", {}).items():
+        viol.setdefault(k, v)
+    stats.update(vbox.get("stats", {}))
+    vcases = vbox.get("cases", [])
+    smism = vbox.get("mismatches", [])
+    if not okm:
+        ctx.notes.append("Engine/RunSave.vo does not build: " + logm[-300:])
+    if vbox.get("model_err"):
+        ctx.notes.append("save-loader model not evaluated on part of the sample (ignored): " + vbox["model_err"][-300:])
+    walls["value_side_thread_total"] = vbox.get("wall")
+    walls["value_side_thread_direct"] = vbox.get("wall_direct")
+    lap("value_side_wait")
     kinds = collections.Counter(re.sub(r"^bomb.*", "bomb", c["kind"].split(":")[0]) for c in cases)
     ctx.coverage.update(dict(
-        evaluations=2 * len(cases) + nmodel + len(scases) * (1 if ctx.quick() else 2),
-        distinct_nontrivial=len(set(c["text"] for c in cases)) + len(set(c["save"] for c in scases)),
+        evaluations=2 * len(cases) + nmodel + len(scases) * (1 if ctx.quick() else 2) + 2 * len(vcases)
+        + 2 * stats.get("save_model_loads", 0),
+        distinct_nontrivial=len(set(c["text"] for c in cases)) + len(set(c["save"] for c in scases))
+        + len(set(c["save"] for c in vcases)),
         rule="structural mutations (delete/retype/duplicate/swap/rename-key/numeric extremes/string prefixes/"
              "empty/wrap/terminator edits), truncation at every k-th byte, random byte edits, random token text and "
              "nesting bombs (depth 5..10000, closed and open) of corpus stories (< 5 kB quick) and of saves taken "
              "along random choice paths; each run through Story::new / load_state of the std and streaming builds; "
-             "std outcome compared with the model on serde's parse of the same text",
+             "std outcome compared with the model on serde's parse of the same text; value-level mutants "
+             "(mutate_json.save_values: alien list / pointer / control values in every value slot, dangling "
+             "paths, out-of-range indices and counters, unknown names) of saves taken line by line in list- and "
+             "thread-using corpus stories and generated list programs, in flows / old / two-flows shape, through "
+             "load_state of both builds (+ reset and replay), a stratified sample through the Coq save-loader "
+             "model and inkdrive (outcome compared)",
         samples=[dict(kind=c["kind"], src=c["src"], text=c["text"][:120]) for c in cases[len(WITNESS):len(WITNESS) + 3]],
-        traces_validated_against_impl=nmodel, correspondence_mismatches=len(mismatches),
+        traces_validated_against_impl=nmodel + stats.get("save_model_loads", 0),
+        correspondence_mismatches=len(mismatches) + len(smism),
+        value_mutant_kinds=dict(collections.Counter(
+            re.sub(r"^.*?(val|variant):", r"\1:", c["kind"]).split(":")[-1] for c in vcases).most_common(80)),
+        value_stories=vbox.get("stories"), value_cases=len(vcases), save_model_scripts=vbox.get("model_cases"),
         input_kinds=dict(kinds), outcomes=dict(stats), stories=len(files), saves=len(saves),
         save_cases=len(scases), wall_breakdown_s=walls))
 
@@ -547,6 +873,14 @@ def run(ctx):
                       dict(mismatches=mismatches[:20]), key="loader-model-mismatch", no_input=True)
     elif not pr["ok"] and viol:
         ctx.notes.append("Props/C15.v does not build: " + pr["failed"][:300])
+    if smism:
+        smism.sort(key=lambda m: len(json.dumps(m)))
+        m0 = smism[0]
+        ctx.violation("save-loader-model-mismatch: load_state answers %s where the model (Engine/Save.v) answers %s on a "
+                      "%s mutant of a save of %s" % (m0["impl"], m0["model"], m0["kind"], m0["src"]),
+                      dict(m0, others=[dict(kind=m["kind"], src=m["src"], impl=m["impl"], model=m["model"])
+                                       for m in smism[1:20]]),
+                      key="save-loader-model-mismatch", no_input=True)
 
 
 def replay(ctx, payload):
@@ -568,6 +902,22 @@ def replay(ctx, payload):
             viol = {k: v for k, v in viol.items() if v[1].get("build") == "stream"}
         else:
             viol = {k: v for k, v in viol.items() if v[1].get("build") == "std"}
+    elif r.get("mode") == "savemodel":
+        gen_tables.run(["engine", "save"])
+        ctx.build(["theories/Engine/RunSave.vo"])
+        std_exe = vlib.build_harness(binname="loadfuzz")
+        ink_exe = os.path.join(os.path.dirname(std_exe), "inkdrive")
+        script = r["script"]
+        ops = [dict(kind=r.get("kind", "replay"), src=r.get("src", "replay"), save=o[1]) if o[0] == "LOADTEXT" else None
+               for o in script]
+        st = collections.Counter()
+        mism, err = run_save_model(ctx, [({"id": "r0", "story": r["story"], "script": script}, ops)], ink_exe, st)
+        viol = {}
+        for m in mism[-1:]:
+            ctx.violation("save-loader-model-mismatch: load_state answers %s where the model answers %s" % (m["impl"], m["model"]),
+                          m, key="save-loader-model-mismatch", no_input=True)
+        if err:
+            ctx.notes.append("save-loader model not evaluated: " + err)
     else:
         viol = {}
     for key, (what, p, no_input) in viol.items():
